@@ -53,12 +53,12 @@ EXTRA = {
  "C01": " Also: an earlier publish to every type before the operation, SubscribeContext among the operations.",
  "C03": " Also: a handler unsubscribing itself; pairs of waiters (Wait/Shutdown/Publish) with an async invocation in flight (sync.Cond, TryLock modelled).",
  "C04": " Also: the after-publish hook's view of a fired Once handler, incl. a hook that panics.",
- "C05": " Also: a panicking handler subscribed through SubscribeWithReplay (handler type reported).",
+ "C05": " Also: a panicking handler subscribed through SubscribeWithReplay (handler type reported); a panic handler that takes the faulty handler off the bus during the publish.",
  "C06": " Also: two waiters at once, Shutdown after a successful Shutdown, a panic report that is still running and publishing.",
  "C07": " Also: registry changes around a Sequential handler, Once retirement while it is being subscribed.",
- "C08": " Also: context values under arbitrary string keys with the OpenTelemetry observability.",
- "C09": " Also: a lost append acknowledgement on the durable-streams store.",
- "C10": " Also: a failed-then-retried SaveOffset on SQLite; concurrent appends on the memory store.",
+ "C08": " Also: context values under arbitrary string keys with the OpenTelemetry observability; all four hooks around a delivery that changes the registry (Once handlers present).",
+ "C09": " Also: a lost append acknowledgement on the durable-streams store; a store that completes only after the persistence deadline.",
+ "C10": " Also: a failed-then-retried SaveOffset on SQLite; concurrent appends on the memory store; streamed events retained beyond the iteration step.",
  "C11": " Also: replay resumed from event offsets on the durable-streams store (strict server; lenient server = recorded finding), 11-12 events in one response.",
  "C12": " Also: a resumed subscription followed by a fault; SQLite streaming row by row.",
  "C13": " Also: appends acknowledged after the deadline passed, an application hook after the store, a publisher deadline next to the persistence timeout.",
